@@ -10,7 +10,7 @@ ASSUME \A t \in 1..N : TLCSet(t, 0)
 TW == {"T", "T!", "[T]", "[T]!", "[T!]", "[T!]!", "[[T!]]"}
 TK == {"int", "enum", "ser", "native", "raw", "input"}
 TP == {"var", "field", "nested", "result", "result_nested", "result_fragment"}
-TS == {"omitted", "none", "val", "val_nullitem", "empty", "val_falsy"}
+TS == {"omitted", "none", "val", "val_nullitem", "empty", "val_falsy", "val_nullfirst"}
 AsBuiltDev == {"toplevel_serialize_whole"}
 
 VARIABLES tid, l
